@@ -137,6 +137,36 @@ func (br *bodyRun) callStatic(st *State, fn *ssa.Function, bindings []Val, argVa
 		return fc.freshTyped(st, rt, "ext")
 	}
 	fr := fc.inferFrame(fn)
+	if !fr.all && fr.paramCalls {
+		// the callee calls function values it is given: add what those may do
+		merged := &inferredFrame{keys: map[string]string{}, locks: fr.locks}
+		for k, s := range fr.keys {
+			merged.keys[k] = s
+		}
+		for i, a := range args {
+			if fv, ok := a.(FuncV); ok {
+				if g, ok := fv.Fn.(*ssa.Function); ok {
+					gf := fc.inferFrame(g)
+					if gf.all {
+						merged.all, merged.why = true, gf.why
+					}
+					for k, s := range gf.keys {
+						merged.keys[k] = s
+					}
+					merged.locks = merged.locks || gf.locks
+					continue
+				}
+			}
+			if i < len(argVals) {
+				if _, isSig := argVals[i].Type().Underlying().(*types.Signature); isSig {
+					if _, ok := a.(FuncV); !ok {
+						merged.all, merged.why = true, "unknown function value passed to "+full
+					}
+				}
+			}
+		}
+		fr = merged
+	}
 	if !fr.all {
 		fc.note("call to %s: no contract; result unconstrained, frame inferred syntactically (%d heap keys)", full, len(fr.keys))
 		na := fc.smt.declare("alloc", "Int")
@@ -412,6 +442,30 @@ func (br *bodyRun) applyContract(st *State, ct *Contract, key string, names []st
 		fc.havocAll(st)
 	} else if ct.Light {
 		fc.note("frame of light-mode function %s is assumed as declared (not checked)", short)
+	}
+	if ct.AssignsInferred {
+		if fn := fc.eng.fnByKey[fc.eng.fullKey(key)]; fn != nil {
+			fr := fc.inferFrame(fn)
+			if fr.all {
+				fc.havocAll(st)
+			} else {
+				fc.note("frame of %s inferred syntactically from its body (%d heap keys)", short, len(fr.keys))
+				var ks []string
+				for k := range fr.keys {
+					ks = append(ks, k)
+				}
+				sort.Strings(ks)
+				for _, k := range ks {
+					fc.touched[k] = true
+					fc.havocKey(st, k, fr.keys[k])
+				}
+				if fr.locks {
+					fc.havocHeld(st)
+				}
+			}
+		} else {
+			fc.havocAll(st)
+		}
 	}
 	for _, a := range ct.Assigns {
 		if a.Src == "everything" {
@@ -703,10 +757,12 @@ func (br *bodyRun) userAsserts(b *ssa.BasicBlock, idx int, ins ssa.Instruction, 
 								return TV{}, false
 							}
 							rv, ok := fc.vals[v]
-							if !ok || !(bb.Dominates(b)) {
-								// not executed on every path to here: an unconstrained value
+							if !ok {
+								// not executed before this point: an unconstrained value
 								return TV{fc.fresh(v.Type(), "noret"), v.Type()}, true
 							}
+							// meaningful on the paths through that call site: guard with called(..)
+							// when the site does not dominate this point
 							return TV{rv, v.Type()}, true
 						}
 					}
@@ -778,9 +834,18 @@ func calleeName(ci ssa.CallInstruction) string {
 	case *ssa.Builtin:
 		return f.Name()
 	case *ssa.MakeClosure:
-		return f.Fn.(*ssa.Function).Name()
+		return closureName(f.Fn.(*ssa.Function))
 	}
 	return ""
+}
+
+// closureName: the local variable a closure is assigned to (else its SSA name).
+func closureName(fn *ssa.Function) string {
+	r := relName(fn)
+	if i := strings.LastIndex(r, "."); i >= 0 && !strings.HasPrefix(r[i+1:], "$") {
+		return r[i+1:]
+	}
+	return fn.Name()
 }
 
 // siteOrdinal: position of the call among the calls to the same callee name, in block order.
